@@ -38,7 +38,7 @@ REACH_PROBES = ('premature_end', 'unbalanced_open', 'unbalanced_close', 'illegal
                 'list_names_lexical')
 
 UNI = ['☃', '\u0000', 'é', '中', '😀', '​', ' ', '﻿', '%', '"', "'", '\\', '#', '\n', '\r', '\t', ';', '(', '{', '[', '=>', '**',
-       '\U0001d4b3', 'ℵ', '١', '²', '½', '＿', 'ǅ', '\x85', '\x1c', '`', '$']
+       '\U0001d4b3', '\ud800', '\udfff', 'ℵ', '١', '²', '½', '＿', 'ǅ', '\x85', '\x1c', '`', '$']
 
 
 def _runtime_fail(r):
@@ -153,6 +153,7 @@ def execute(case, ctx):
             exc = e
         kind = op['kind']
         ctx.event(step, op['op'], kind, type(exc).__name__ if exc else None)
+        ctx.state(canon.digest([op['op'], kind, type(exc).__name__ if exc else None, getattr(getattr(parser, 'lex', None), 'paren_count', 0)]))
         what = 'step %d %s(%r) [injected failure: %s]' % (step, op['op'], src[:200], kind)
         if exc is not None and not isinstance(exc, Exception):
             ctx.report('non_exception_escaped', '%s: %r (%s) escaped' % (what, exc, type(exc).__name__), {'kind': 'non_exception_escaped'})
